@@ -179,7 +179,10 @@ def _decorate_namespace_function(
 
                 # Ignore functions which don't have preconditions or postconditions
                 if base_contract_checker is not None:
-                    base_preconditions.extend(base_contract_checker.__preconditions__)
+                    # Copy the groups so that the function never shares a group with its bases.
+                    base_preconditions.extend(
+                        [list(group) for group in base_contract_checker.__preconditions__]
+                    )
                     base_snapshots.extend(
                         base_contract_checker.__postcondition_snapshots__
                     )
@@ -289,7 +292,10 @@ def _decorate_namespace_property(
 
                 # Ignore functions which don't have preconditions or postconditions
                 if base_contract_checker is not None:
-                    base_preconditions.extend(base_contract_checker.__preconditions__)
+                    # Copy the groups so that the function never shares a group with its bases.
+                    base_preconditions.extend(
+                        [list(group) for group in base_contract_checker.__preconditions__]
+                    )
                     base_snapshots.extend(
                         base_contract_checker.__postcondition_snapshots__
                     )
